@@ -51,7 +51,7 @@ UloBB(f, b)      == Ent("ulobb", "", "", <<RefX("l.ulobb", f, b)>>, <<>>)
 
 \* index a reference site is looked up in
 RefClass(rk) ==
-  CASE rk \in {"ty.alias", "ty.field", "ty.global", "ty.sig", "ty.inst"} -> "type"
+  CASE rk \in {"ty.alias", "ty.field", "ty.global", "ty.sig", "ty.inst", "ty.const"} -> "type"
     [] rk \in {"g.init", "g.aliasee", "g.resolver", "g.operand", "g.callee", "g.personality",
                "g.mdvalue", "g.ulo", "g.cmp"} -> "glob"
     [] rk \in {"c.global", "c.func"} -> "comdat"
@@ -117,7 +117,8 @@ Patterns == <<
      Alias("b", <<Ref("g.aliasee", "@1")>>) >>,
   \* 9: type uses in signatures, instructions and struct fields; opaque type completed by nothing
   << Decl("f", <<Ref("ty.sig", "b")>>), TStruct("b", <<Ref("ty.field", "a")>>), TStruct("a", <<>>),
-     Def("g", <<Ref("ty.sig", "a")>>, << Loc("entry", "block", <<>>), Loc("x", "inst", <<Ref("ty.inst", "b")>>) >>) >>,
+     Def("g", <<Ref("ty.sig", "a")>>, << Loc("entry", "block", <<>>), Loc("x", "inst", <<Ref("ty.inst", "b")>>) >>),
+     Global("h", <<Ref("ty.const", "b")>>) >>,
   \* 10: use-list orders (global and basic-block specific)
   << Global("a", <<Ref("g.init", "h")>>), Global("b", <<Ref("g.init", "h")>>), Global("h", <<>>),
      Def("f", <<>>, << Loc("entry", "block", <<Ref("l.target", "bb"), Ref("l.target", "x")>>), Loc("bb", "block", <<Ref("l.target", "x")>>), Loc("x", "block", <<>>) >>),
